@@ -288,6 +288,12 @@ def body(tier, seed, replay):
     rng = random.Random(seed)
     tmp = C.scratch_dir('c01_')
     try:
+        if replay and 'spec' in json.load(open(replay)):
+            from . import c03
+            sp = json.load(open(replay))['spec']
+            sp['inputs'] = [tuple(w) for w in sp['inputs']]
+            c03.judge(PID, [c03.observe_case(sp)], ev, rep, tmp, 'replay', which='LANG')
+            return rep.finish()
         if replay:
             case = json.load(open(replay))
             spec = {'family': case['family'], 'gtext': case['grammar'], 'rules': case['spec_rules'],
@@ -337,6 +343,10 @@ def body(tier, seed, replay):
                 ev.sample({'grammar': c['gtext'], 'text': c['texts'][-1], 'modes': c['modes'], 'observed': c['cls'][-1]})
         judge_batch(cases, ev, rep, tmp, 'sweep')
 
+        # ---- grammars written in lark's EBNF (? * + ~n..m [..] groups, inlined and ! rules): accepted iff in the language of
+        #      the grammar as written (EBNF.tla), under the three Earley lexers
+        ebnf_phase(tier, rng, ev, rep, tmp)
+
         # ---- chart-column conformance (drift level) and binding self-test ---------------------------
         from . import earley_cols
         earley_cols.run(ev, rep, tier, rng, tmp)
@@ -349,6 +359,41 @@ def body(tier, seed, replay):
         return rep.finish()
     finally:
         shutil.rmtree(tmp, ignore_errors=True)
+
+
+def ebnf_phase(tier, rng, ev, rep, tmp):
+    import itertools
+    from . import c03, c09, ebnf as E
+    specs = []
+    short = [w for k in range(0, 4) for w in itertools.product(['A', 'B', '_C', 'D'], repeat=k)]
+    for i in range(C.scale(900 if tier == 'quick' else 9000)):
+        G = E.rand_grammar(rng, depth=2 if i % 4 else 3)
+        ins = set(rng.sample(short, 14))
+        for _ in range(10):
+            sn = E.sample_sentence(G, rng, maxlen=6)
+            if sn is not None:
+                sn = list(sn)
+                ins.add(tuple(sn))
+                q = rng.randrange(len(sn) + 1)
+                ins.add(tuple(sn[:q] + [rng.choice(['A', 'B', '_C', 'D'])] + sn[q:]))
+                if sn:
+                    ins.add(tuple(sn[:q - 1] + sn[q:]))
+        specs.append({'G': G, 'ka': False, 'ph': True, 'inputs': sorted(ins), 'must': True, 'family': 'F_ebnf', 'lexers': ['basic', 'dynamic', 'dynamic_complete']})
+    for sp in c09.parse_specs('quick', rng):
+        if max(len(w) for w in sp['inputs']) <= 12:
+            specs.append(dict(sp, lexers=['basic', 'dynamic', 'dynamic_complete']))
+    cases = [c for c in C.pmap(c03.observe_case, specs) if not c['skip']]
+    for c in cases:
+        ev.count('ebnf_grammars')
+        for i in c['inputs']:
+            for o in i['obs']:
+                ev.count('ebnf_parses')
+                ev.count('ebnf_accepted' if o['out'] == 0 else 'ebnf_rejected')
+    ev.cov['families']['F_ebnf'] = {'grammars': len(cases)}
+    ev.cov['traces_validated_against_impl'] += ev.cov['counts'].get('ebnf_parses', 0)
+    c03.judge(PID, cases, ev, rep, tmp, 'ebnf', which='LANG')
+    if ev.cov['counts'].get('ebnf_accepted', 0) < 3000:
+        raise C.MachineryFailure('vacuity (EBNF family): %s' % ev.cov['counts'])
 
 
 def selftest(ev, cases, tmp):
